@@ -112,7 +112,7 @@ func TestC13Ed25519Internal(t *testing.T) {
 	}
 	t.Run("grouplaw", func(t *testing.T) {
 		sub := "grouplaw/ed25519-internal"
-		vlib.Check(t, vlib.N(300, 3000), func(t *rapid.T) {
+		vlib.Check(t, vlib.N(400, 1600), func(t *rapid.T) {
 			a, pcls := c13Exp(t, "a")
 			rel := rapid.SampledFrom([]string{"Q=P", "Q=-P", "Q=identity", "Q=kP", "Q=G", "Q=-G", "Q=random", "Q=random"}).Draw(t, "rel")
 			var b *big.Int
